@@ -231,13 +231,17 @@ impl ChainM {
                 None => "err".into(),
             },
             Probe::Custom { n } => format!("ok:{}", hexs(custom_query_answer(*n).as_bytes())),
-            Probe::OwnRange { start, end, desc } => {
+            Probe::OwnRange { start, end, desc, what } => {
                 let c = &self.st.contracts[me];
                 let mut v: Vec<String> = c
                     .storage
                     .iter()
                     .filter(|(k, _)| start.as_ref().map_or(true, |s| k.as_slice() >= s.as_slice()) && end.as_ref().map_or(true, |e| k.as_slice() < e.as_slice()))
-                    .map(|(k, v)| format!("{}={}", hexs(k), hexs(v)))
+                    .map(|(k, v)| match what {
+                        1 => hexs(k),
+                        2 => hexs(v),
+                        _ => format!("{}={}", hexs(k), hexs(v)),
+                    })
                     .collect();
                 if *desc {
                     v.reverse();
